@@ -679,6 +679,31 @@ Proof.
   - rewrite N.ltb_irrefl. rewrite IH; [reflexivity | intros; apply H; right; assumption].
 Qed.
 
+(* valid_blocks is the FLOOR of the valid size over the block size: a level counts as short as soon as its valid size is below
+   used * block size by any number of bytes *)
+Lemma valid_blocks_floor : forall bs sp, 0 < bs ->
+  valid_blocks bs sp * bs <= valid_size sp /\ valid_size sp < (valid_blocks bs sp + 1) * bs.
+Proof.
+  intros bs sp H. unfold valid_blocks. split.
+  - rewrite N.mul_comm. apply N.mul_div_le. lia.
+  - rewrite N.mul_comm. rewrite N.add_1_r. apply N.mul_succ_div_gt. lia.
+Qed.
+
+Lemma valid_blocks_lt_iff : forall bs sp used, 0 < bs -> (valid_blocks bs sp < used <-> valid_size sp < used * bs).
+Proof.
+  intros bs sp used H. destruct (valid_blocks_floor bs sp H) as [A B]. split; intros L.
+  - apply N.lt_le_trans with ((valid_blocks bs sp + 1) * bs); [exact B |]. apply N.mul_le_mono_r. lia.
+  - destruct (N.lt_ge_cases (valid_blocks bs sp) used) as [X | X]; [exact X | exfalso].
+    assert (used * bs <= valid_blocks bs sp * bs) by (apply N.mul_le_mono_r; exact X). lia.
+Qed.
+
+(* a single parity file recorded with exactly the used size and found shorter by ANY number of bytes > 0 is short *)
+Lemma truncated_file_is_short : forall bs used d, 0 < bs -> d < used * bs -> valid_blocks bs [(Some (used * bs), d)] < used.
+Proof.
+  intros bs used d H L. apply valid_blocks_lt_iff; [exact H |]. simpl.
+  destruct (N.ltb d (used * bs)) eqn:E; [exact L | apply N.ltb_ge in E; lia].
+Qed.
+
 Example ex_valid_size :
   valid_blocks 1024 [(Some 9216, 2048)] = 2 /\ recorded_size [(Some 9216, 2048)] / 1024 = 9
   /\ valid_blocks 1024 [(Some 4096, 4096); (Some 5120, 1024); (Some 2048, 2048)] = 5
